@@ -334,6 +334,69 @@ func c04Sampled(c *caseCtx) {
 	}
 }
 
+// biases whose effect is a deterministic function of the data (no per-alternative random draw): the utilities after them
+// are still independent of the listing order. Dyadic / small-integer values keep every accumulation over alternatives
+// (importance sums, observed ranges) exact, so no order of summation can matter.
+func c04Biased(c *caseCtx) {
+	method := []string{"weightedSum", "owa", "choquetIntegral"}[c.idx%3]
+	o := genOpts{method: method, minAlt: 3, maxAlt: 8, minCrit: 2, maxCrit: 4, allCons: c.idx % 2, negValues: true, allFire: true,
+		nBiases: 1 + c.rng.Intn(2), biasPool: []string{"criteriaMixing", "preferenceReversal", "criteriaOmission"}, profile: []string{profTies, profDyadic}[c.rng.Intn(2)]}
+	g := genRequest(c.rng, o)
+	d := decide(g.body(), false)
+	c.count("evaluations", 1)
+	if !d.OK {
+		c.count("rejected", 1)
+		return
+	}
+	es, ok := entriesOfView(d.View)
+	if !ok {
+		c.violate("no-value", "evaluation.value missing", M{"request": g.M})
+		return
+	}
+	if msg := c04Oracle(es); msg != "" {
+		c.violate("ranking-links", msg, M{"request": g.M, "result": d.View.Result})
+		return
+	}
+	base := map[string]rankedVal{}
+	for _, e := range es {
+		base[e.id] = e
+	}
+	for rep := 0; rep < 3; rep++ {
+		p := deepCopyM(g.M)
+		ka := p["knownAlternatives"].([]interface{})
+		c.rng.Shuffle(len(ka), func(i, j int) { ka[i], ka[j] = ka[j], ka[i] })
+		ch := p["choseToMake"].([]interface{})
+		c.rng.Shuffle(len(ch), func(i, j int) { ch[i], ch[j] = ch[j], ch[i] })
+		d2 := decide((&genReq{M: p, method: method}).body(), false)
+		c.count("evaluations", 1)
+		c.count("permutations_after_biases", 1)
+		if !d2.OK {
+			c.violate("perm-rejected", "permuted request rejected: "+d2.Err, M{"request": g.M, "permuted": p})
+			return
+		}
+		es2, _ := entriesOfView(d2.View)
+		if len(es2) != len(es) {
+			c.violate("perm-size", "permuted request gives another number of entries", M{"request": g.M, "permuted": p})
+			return
+		}
+		for _, e := range es2 {
+			b := base[e.id]
+			if e.value != b.value {
+				c.violate("perm-value", fmt.Sprintf("value of %s (after deterministic biases) depends on listing order: %v vs %v", e.id, b.value, e.value), M{"request": g.M, "permuted": p})
+				return
+			}
+			if fmt.Sprint(sortedStrings(e.links)) != fmt.Sprint(sortedStrings(b.links)) {
+				c.violate("perm-links", fmt.Sprintf("links of %s (after deterministic biases) depend on listing order: %v vs %v", e.id, b.links, e.links), M{"request": g.M, "permuted": p})
+				return
+			}
+		}
+	}
+	if len(es) >= 2 {
+		c.count("nontrivial", 1)
+		c.distinct("biased|" + method + "|" + tiePattern(es))
+	}
+}
+
 func sortedKeysM(m M) []string {
 	ks := make([]string, 0, len(m))
 	for k := range m {
@@ -354,6 +417,8 @@ func init() {
 		streams: []*stream{
 			{name: "exhaustive", n: func(string) int { return c04VectorCount() }, unit: 1400, run: c04Exhaustive, exhaustive: true,
 				note: "all value vectors in {0..3}^n, n<=6"},
+			{name: "sampled-biased", n: tierN(6000, 100000), unit: 1500, run: c04Biased, floors: map[string]int64{"permutations_after_biases": 9000},
+				note: "1..2 fired biases out of mixing / reversal / omission (no per-alternative random draws), exact (dyadic / small-integer) data, values outside declared ranges included: value, class and links per alternative under 3 permutations"},
 			{name: "sampled-service", n: tierN(2000, 30000), unit: 1000, run: c04Sampled, service: true,
 				note: "the same generator and oracle as the stream named in front of the dash, but every request goes through decideHandler of main.go in-process (gin binding, the handler's own request object) after a history of 1..3 unrelated requests (accepted and rejected)"},
 			{name: "sampled", n: tierN(6000, 150000), unit: 1500, run: c04Sampled, floors: map[string]int64{"permutations": 10000, "nontrivial": 4000}},
